@@ -21,13 +21,20 @@ class Ctx:
         self.harness = None
         self.driver = None
         self.notes = {}
+        self.boost = False
         self.tmp = os.path.join(nvlib.BUILD, "tmp", "%s_%d" % (prop, os.getpid()))
 
     def quick(self):
         return self.tier == "quick"
 
     def scale(self, q, t):
-        return q if self.tier == "quick" else t
+        """case count of a stream: q in the quick tier, t in the thorough tier.  When a file the property is anchored
+        in differs from the tree the models were written for (self.boost), the quick tier spends more: min(t, 4q)."""
+        if self.tier != "quick":
+            return t
+        if self.boost and isinstance(q, (int, float)) and isinstance(t, (int, float)) and t > q:
+            return type(q)(min(t, 4 * q))
+        return q
 
     def tmpdir(self):
         os.makedirs(self.tmp, exist_ok=True)
@@ -78,6 +85,12 @@ def main():
         # 2. translate
         tr = nvlib.run_translator(ctx.repo)
         info["translator"] = tr
+        changed = nvlib.anchors_changed(prop)
+        info["anchors_changed"] = changed
+        if changed:
+            ctx.boost = True
+            log("%s: %d anchor file(s) differ from the tree the models follow (%s%s): quick-tier streams are enlarged" % (
+                prop, len(changed), ", ".join(changed[:4]), " ..." if len(changed) > 4 else ""))
     except nvlib.BuildError as e:
         log(str(e))
         print("CHECK-ERROR property=%s cannot build /repo working tree: %s" % (prop, str(e).split("\n")[0]))
@@ -219,6 +232,7 @@ def main():
         "phases": info["phases"],
         "translator_files": info.get("translator", {}).get("files", []),
         "leanchecker": info.get("leanchecker", {}),
+        "anchor_files_changed": info.get("anchors_changed", []),
     }
     if discharged == 0:
         # broken proof: keep the evidence schema-valid through the generic keys
